@@ -551,6 +551,13 @@ fn run_wasm(job: &Job, res: &mut RunResult) {
                         viol(res, prop, "export_import_ignored", "ignore_list_roundtrip", format!("{what}: the exported ignore list changed over export/clear/import"), json!({}));
                     }
                 }
+                // importing a list into a linter that already holds (other) entries is a union:
+                // importing what it already has changes nothing
+                let _ = long.import_ignored_lints(exported);
+                let again = lints_json(&long.lint(s.clone(), lang(markdown)));
+                if again != after {
+                    viol(res, prop, "export_import_ignored", "ignore_list_roundtrip", format!("{what}: importing its own export a second time changed the results"), json!({}));
+                }
                 res.count("c14_roundtrips", 1);
                 script.push("export/clear/import ignored".into());
             }
